@@ -410,12 +410,26 @@ def run_vonmises(unit):
 
 
 def coarse_quads():
+    """the 3 645 coarse-lattice quadruples as (45, 81, 4).  The product layout (rows = (a1,b1),
+    columns = (a2,b2)) is transposed-and-refolded (member idx <- product index (idx % 45)*81 + (7*(idx//45)+3) % 81)
+    so that all four moments vary along every axis of (45,81) and of (5,9,81) (asserted below): with
+    the plain product layout a permutation of the rows of b2 alone, or of the columns of a1 alone,
+    would be invisible."""
     n = 4
     A2, B2 = lattice_plane(n)
     pairs = lattice_pairs(n)
-    Q = np.stack([
+    Q = np.concatenate([
         np.stack([np.full(A2.shape, i / n), np.full(A2.shape, j / n), A2, B2], axis=1) for i, j in pairs])
-    return Q  # (45, 81, 4)
+    idx = np.arange(len(Q))
+    perm = (idx % 45) * 81 + (7 * (idx // 45) + 3) % 81
+    if len(np.unique(perm)) != len(Q):
+        raise AssertionError("layout is not a permutation")
+    Q3 = Q[perm].reshape(45, 81, 4)
+    Q4 = Q3.reshape(5, 9, 81, 4)
+    for ax in range(3):
+        if not np.all(Q4.std(axis=ax) > 0):
+            raise AssertionError("member layout does not vary along every axis")
+    return Q3
 
 
 def run_origin(unit):
@@ -499,10 +513,10 @@ def run_shapes(unit):
             compare("(nt,nf)", r, ref3, done3, Q3)
             c.cat("progress_bar_path(points>=10)", 1)
     elif part == "(nt,nx,nf)":
-        Q4 = Q3.reshape(9, 5, 81, 4)
+        Q4 = Q3.reshape(5, 9, 81, 4)
         r = guarded("(nt,nx,nf)", lambda: call(variant, Q4[..., 0], Q4[..., 1], Q4[..., 2], Q4[..., 3], direction))
         if r is not None:
-            compare("(nt,nx,nf)", r, ref.reshape(9, 5, 81, N), done.reshape(9, 5, 81), Q4)
+            compare("(nt,nx,nf)", r, ref.reshape(5, 9, 81, N), done.reshape(5, 9, 81), Q4)
     elif part == "(nt,nf)-transposed-view":
         # non-contiguous input, as produced by xarray transposes
         QT = np.ascontiguousarray(Q3.transpose(1, 0, 2))  # (81,45,4)
@@ -616,7 +630,7 @@ def run_object(unit):
     keybase = {"variant": variant, "N": N, "grid_origin": "0"}
     Q3 = coarse_quads()  # (45,81,4)
     E = energy(45)
-    depths = np.array([np.inf, 10.0, 250.0])[np.arange(45) % 3]
+    depths = np.array([np.inf, 10.0, 250.0])[(np.arange(45) + np.arange(45) // 9) % 3]  # varies along both lead axes
 
     def convert(s, label):
         try:
@@ -643,7 +657,7 @@ def run_object(unit):
     if layout == "time":
         lead = (45,)
     else:
-        lead = (9, 5)
+        lead = (5, 9)
     Eb = E.reshape(lead + (NF,))
     Qb = Q3.reshape(lead + (NF, 4))
     s1 = make_1d(FREQ, Eb, Qb[..., 0], Qb[..., 1], Qb[..., 2], Qb[..., 3], depth=depths.reshape(lead),
